@@ -33,6 +33,13 @@ FAMILIES = {
         'thorough': dict(consts=dict(N=2, MaxKids=1, MinHi=1, Axes={'ctc'}, MaxCtc=3, CtcDepth=1, CtcBinOps={'IMPLIES', 'EXCLUDES', 'OR'},
                                      CtcMinFeatures=2), invariants=tlc.GEN_INVARIANTS, cap=20000),
     },
+    # two or three requires-type constraints over four or five features (seeded walks): several sources of one target, chains
+    'Req2': {
+        'quick':    dict(consts=dict(N=5, MaxKids=2, MinHi=0, Axes={'ctc'}, MaxCtc=3, CtcDepth=1, CtcBinOps={'IMPLIES', 'REQUIRES'}, CtcMinFeatures=4),
+                         invariants=tlc.GEN_INVARIANTS, simulate=dict(num=500, depth=9), cap=900),
+        'thorough': dict(consts=dict(N=6, MaxKids=3, MinHi=0, Axes={'ctc'}, MaxCtc=3, CtcDepth=1, CtcBinOps={'IMPLIES', 'REQUIRES', 'EXCLUDES'}, CtcMinFeatures=4),
+                         invariants=tlc.GEN_INVARIANTS, simulate=dict(num=6000, depth=10), cap=8000),
+    },
     # every decoration at once (seeded walks): abstract + typed + feature cardinality + attributes + constraints
     'Mix': {
         'quick':    dict(consts=dict(N=7, MaxKids=3, MinHi=0, AllowStar=True, Axes={'abs', 'type', 'fcard', 'attr', 'ctc'},
@@ -149,7 +156,7 @@ FAMILIES = {
 
 ATTR_VALS_JSON = [{'val': v, 'dom': '', 'nul': 'n'} for v in
                   ['n', 'b:true', 'b:false', 'i:5', 'i:0', 'd:1.5', 's:txt', 's:two words', 's:true', 's:False', 's:5', 'l:[i:1,s:x]',
-                   'm:{s:k=i:1}']]
+                   'm:{s:k=i:1}', 'd:0.30000000000000004', 'i:-7', 'd:1e-07', 'i:123456789012345678']]
 ALL_OPS_NOT_XOR = LOGIC_BIN - {'XOR'}
 
 
@@ -234,7 +241,7 @@ ATTR_VALS_AFM = [{'val': 's:3', 'dom': 'R:i:1..i:5|E:', 'nul': 's:0'},
                  {'val': 's:1', 'dom': 'R:|E:s:1,s:2', 'nul': 's:2'}]
 FAMILIES.update(fmt_families('afm', ALL_OPS_NOT_XOR, ATTR_VALS_AFM, abstract=False))
 ATTR_VALS_UVL = [{'val': v, 'dom': '', 'nul': 'n'} for v in
-                 ['n', 'b:true', 'b:false', 'i:5', 'i:0', 'i:-5', 'd:1.5', 'd:0.1234567', 'd:-2.25', 's:txt', 's:two words', 's:true', 's:static//img',
+                 ['n', 'b:true', 'b:false', 'i:5', 'i:0', 'i:-5', 'd:1.5', 'd:0.1234567', 'd:-2.25', 'd:0.30000000000000004', 'd:0.3333333333333333', 's:txt', 's:two words', 's:true', 's:static//img',
                   's:word word word word word word word word word word word word word word word word word word word word word word word word word word end',
                   'l:[i:1,i:2]', 'l:[i:5]', 'l:[s:x,d:2.5,i:-3]', 'm:{s:k=i:1}', 'm:{s:k=m:{s:j=s:v}}']]
 FAMILIES.update(fmt_families('uvl', ALL_OPS_NOT_XOR, ATTR_VALS_UVL, star=True, extra={
@@ -306,7 +313,7 @@ FAMILIES.update({
     },
     'Deep-Ctc': {   # walks: one or two constraints grown to depth 3-4 over three or four features
         'quick':    dict(consts=dict(N=4, MaxKids=3, MinHi=1, Axes={'ctc'}, MaxCtc=2, CtcDepth=1, CtcBinOps=LOGIC_BIN, CtcMinFeatures=3,
-                                     CtcGrow=2), invariants=tlc.GEN_INVARIANTS, simulate=dict(num=600, depth=10)),
+                                     CtcGrow=3), invariants=tlc.GEN_INVARIANTS, simulate=dict(num=600, depth=11)),
         'thorough': dict(consts=dict(N=4, MaxKids=3, MinHi=1, Axes={'ctc'}, MaxCtc=2, CtcDepth=1, CtcBinOps=LOGIC_BIN, CtcMinFeatures=3,
                                      CtcGrow=2), invariants=tlc.GEN_INVARIANTS, simulate=dict(num=6000, depth=12)),
     },
@@ -345,15 +352,15 @@ def surface(dims, brokens, pool):
 
 
 B = ['0', '1']
-FAMILIES['Surface-uvl'] = surface({'quote': B, 'parens': B, 'merge': B, 'comments': B,
+FAMILIES['Surface-uvl'] = surface({'quote': B, 'parens': B, 'merge': B, 'comments': B, 'flat': B,
                                    'header': ['none', 'namespace', 'imports', 'include', 'all']},
-                                  ['bracket', 'operator', 'section', 'indent', 'badchar'], 12)   # pool size 12
+                                  ['bracket', 'operator', 'section', 'indent', 'badchar'], 18)   # pool size 18
 
 FAMILIES['Surface-fide'] = surface({'order': B, 'optattr': ['implicit', 'explicit'], 'nary': B, 'extras': B, 'pretty': B, 'noctc': B, 'groupmand': B},
-                                   ['unknownrule'], 14)
+                                   ['unknownrule'], 18)
 FAMILIES['Surface-xml'] = surface({'order': B, 'pretty': B, 'relnames': B, 'cardfirst': B, 'setsingle': ['0']}, ['duplicate'], 10)
-FAMILIES['Surface-afm'] = surface({'parens': B, 'order': B}, ['relational'], 12)
-FAMILIES['Surface-glencoe'] = surface({'ids': B, 'order': B, 'extras': B, 'minmax': B, 'pretty': B, 'nary': B}, ['unknowntype'], 14)
+FAMILIES['Surface-afm'] = surface({'parens': B, 'order': B}, ['relational'], 14)
+FAMILIES['Surface-glencoe'] = surface({'ids': B, 'order': B, 'extras': B, 'minmax': B, 'pretty': B, 'nary': B}, ['unknowntype'], 18)
 FAMILIES.update({
     'Ref-xml': {t: dict(consts=dict(N=5, MaxKids=3, MinHi=0, Axes={'ctc'}, MaxCtc=2, CtcDepth=1, CtcBinOps={'REQUIRES', 'EXCLUDES'},
                                     CtcMinFeatures=4, MaxLevel=7),
